@@ -26,5 +26,13 @@ ImplAddEquiv ==
   IN LImplAdd(x, y) = IF "ok" \in DOMAIN r THEN [ok |-> ToLimbs(r.ok)]
                       ELSE [panic |-> TRUE]
 LessEquiv == LLess(x, y) <=> ToInt(x) < ToInt(y)
+\* x as the reference's serial (eras 0..2), y as the serial to place
+PlaceEquiv ==
+  \A era \in 0 .. 2 :
+     LET ref == era * S!M + ToInt(x) IN
+     /\ LPlaceDefined(x, y) <=> S!PlaceDefined(ref, ToInt(y))
+     /\ LPlaceDefined(x, y) =>
+           S!Place(ref, ToInt(y)) = LPlaceEra(era, x, y) * S!M + ToInt(y)
+     /\ LPlaceConstrained(era, x, y) <=> S!PlaceConstrained(ref, ToInt(y))
 RoundTrip == ToLimbs(ToInt(x)) = x /\ ToInt(LHalf) = S!H
 =============================================================================
